@@ -7,7 +7,7 @@
 set -u
 export GOFLAGS=-mod=mod GOPROXY=off GOSUMDB=off GOTOOLCHAIN=local
 ID=$1; SLUG=$2; DEMO=$3; DEST=$4; RUN=$5; shift 5; PKGS="$@"
-SRC=/tmp/seed/$ID/SEED
+SRC=${SEEDROOT:-/tmp/seed}/$ID/SEED
 W=/tmp/confirm-$ID
 rm -rf $W; git -C /repo worktree prune; git -C /repo worktree add -q --detach $W HEAD || exit 2
 cp $SRC/$DEMO $W/$DEST/ || exit 2
